@@ -40,7 +40,7 @@ ASSUMPTIONS = [
     'in-memory-vs-file entry points are judged only when the written reference reads back (pandas) with the same dtypes and values as the reference frame',
     'float differences are planted on a decimal grid (0.4 or 2 units of the last compared place) so that rounding is unambiguous',
 ]
-REQUIRED_MONITORS = ['oracle:must-pass', 'oracle:must-fail', 'failure:message_checked', 'inputs:hashed'] + \
+REQUIRED_MONITORS = ['history:same_reference_reused', 'oracle:must-pass', 'oracle:must-fail', 'failure:message_checked', 'inputs:hashed'] + \
     ['entry:' + e for e in sorted(set(ENTRIES))] + ['reach:types_match', 'reach:single_col_diffs', 'reach:resolve_option_flag']
 REQUIRED_CLASSES = ['mut=%s' % m for m in sorted(set(MUTS))] + ['mut=key_crosses_condition'] + ['kind=%s' % k for k in KINDS]
 
@@ -304,17 +304,20 @@ def run_case(ctx, case):
                 ext = entry.split('-')[1]
                 refp = os.path.join(d, 'ref.' + ext)
                 actp = os.path.join(d, 'act.' + ext)
+                keep = case.get('keep_ref') and os.path.exists(refp)
                 for p_ in (refp, actp):
-                    if os.path.exists(p_):
+                    if os.path.exists(p_) and not (keep and p_ == refp):
                         os.unlink(p_)
                 ro.pop('check_extra_cols', None)
                 tm = ro.pop('type_matching', None)
                 try:
                     if ext == 'parquet':
-                        ref_df.to_parquet(refp)
+                        if not keep:
+                            ref_df.to_parquet(refp)
                         back = pd.read_parquet(refp)
                     else:
-                        ref_df.to_csv(refp, index=False)
+                        if not keep:
+                            ref_df.to_csv(refp, index=False)
                         from tdda.referencetest.checkpandas import default_csv_loader
                         back = default_csv_loader(refp)
                     pre_ok = list(back.dtypes.astype(str)) == list(ref_df.dtypes.astype(str)) and back.equals(ref_df)
@@ -373,8 +376,34 @@ def run_case(ctx, case):
 
 
 def run_shard(ctx):
+    import copy
     for i in range(ctx.params['cases']):
-        run_case(ctx, gen_case(ctx.rng, i))
+        case = gen_case(ctx.rng, i)
+        run_case(ctx, case)
+        if '-' in case['entry'] and i % 3 == 0:
+            # history against ONE unchanged reference file: after whatever the first assertion did (sorting,
+            # conditions, precision ...), a plain copy of the reference must still pass and, where the rows
+            # are not already in key order, the key-sorted frame must still fail
+            base = case['base']
+            plain = {'check_data': None, 'check_types': None, 'check_order': None, 'precision': None, 'type_matching': None,
+                     'sortby': None, 'condition': None}
+            c2 = {'base': base, 'actual': copy.deepcopy(base), 'mut': {'kind': 'copy'}, 'opts': plain, 'entry': case['entry'],
+                  'keep_ref': True, 'sequel': 'copy-after'}
+            run_case(ctx, c2)
+            ks = base['cols'][0]['values']
+            order = sorted(range(len(ks)), key=lambda t: ks[t])
+            if order != list(range(len(ks))):
+                srt = copy.deepcopy(base)
+                differing = []
+                for c in srt['cols']:
+                    new = [c['values'][t] for t in order]
+                    if new != c['values']:
+                        differing.append(c['name'])
+                    c['values'] = new
+                c3 = {'base': base, 'actual': srt, 'mut': {'kind': 'swap_rows', 'rows': order[:2], 'differing_cols': differing, 'sort_restores': False},
+                      'opts': plain, 'entry': case['entry'], 'keep_ref': True, 'sequel': 'sorted-after'}
+                run_case(ctx, c3)
+            ctx.rec.event('history:same_reference_reused')
     for k, v in _counter.items():
         ctx.rec.event('reach:' + k, v)
     _counter.clear()
